@@ -681,29 +681,41 @@ class Session:
             inner = core.get("inner", self.node)
             if st["sub"] == "update":
                 sub = Update(build_chm(st["constraint"], constrainable(inner), "set"))
-            else:
+            elif st["sub"] == "regenerate":
                 sub = Regenerate(sel_build(st["sel"]))
+            if st["sub"] == "static":
+                sub = self.static_request(static_root(inner), st["subs"])
             idx = st["idx"] if st.get("idx_enc") == "int" else jnp.asarray(st["idx"], dtype=jnp.int32)
             req = IndexRequest(jnp.asarray(st["idx"], dtype=jnp.int32) if True else idx, sub)
         elif op == "static_edit":
-            d = {}
-            for ent in st["subs"]:
-                a = ent["addr"]
-                key = a[0] if len(a) == 1 else tuple(a)
-                if ent["kind"] == "update":
-                    sr = static_root(self.node)
-                    callee = [s for s in sr["stmts"] if s["addr"] == a][0]["callee"]
-                    d[key] = Update(build_chm(ent["constraint"], constrainable(callee), "set"))
-                elif ent["kind"] == "regenerate":
-                    d[key] = Regenerate(sel_build(ent["sel"]))
-                else:
-                    d[key] = EmptyRequest()
-            req = StaticRequest(d)
+            req = self.static_request(static_root(self.node), st["subs"])
         else:
             raise HarnessError(op)
         if st.get("annotate"):
             req = DiffAnnotate(req)
         return req
+
+    def static_request(self, sr, subs):
+        d = {}
+        for ent in subs:
+            a = ent["addr"]
+            key = a[0] if len(a) == 1 else tuple(a)
+            if ent["kind"] == "update":
+                callee = [s for s in sr["stmts"] if s["addr"] == a][0]["callee"]
+                d[key] = Update(build_chm(ent["constraint"], constrainable(callee), "set"))
+            elif ent["kind"] == "regenerate":
+                d[key] = Regenerate(sel_build(ent["sel"]))
+            elif ent["kind"] == "rejuv":
+                # a custom-proposal move on one normal call site: the only request
+                # kind whose weight is not the score change (proposal terms)
+                import genjax
+                from genjax._src.inference.requests.rejuvenate import Rejuvenate
+
+                ca, cb, cs = ent["a"], ent["b"], ent["s"]
+                d[key] = Rejuvenate(genjax.normal, lambda chm, ca=ca, cb=cb, cs=cs: (ca * chm.get_value() + cb, cs))
+            else:
+                d[key] = EmptyRequest()
+        return StaticRequest(d)
 
     def apply_edit(self, rep, st, perts, tr, req, argdiffs):
         api = st.get("api", "req.edit")
@@ -777,6 +789,8 @@ class Session:
             ev["outcome"] = "unobservable"
             return ev
         rec.edit = {"src": src, "bwd": bwd, "w": np.asarray(w), "old_args": src.args, "changed": changed, "op": op}
+        if any(e.get("kind") == "rejuv" for e in st.get("subs") or []):
+            rec.edit["no_inverse"] = True
         rec.flag_enc = getattr(src, "flag_enc", None)
         rep.slots[st["out"]] = rec
         ev.update(trace_event(rec))
@@ -883,7 +897,9 @@ class Session:
                 if ints and ints[0] != idx and core["k"] in ("vmap", "repeat"):
                     if not same_bits(rec.x[a], src.x[a]):
                         self.viol("C11.index-leak", {"C11"}, i, rep, "IndexRequest at %d changed element address %s" % (idx, a))
-            if st["sub"] == "update":
+            if st["sub"] == "static":
+                pass
+            elif st["sub"] == "update":
                 cons = {(idx,) + tuple(a): v for a, v in st["constraint"]}
                 for a, v in cons.items():
                     if a in new_vis and not same_value(rec.x.get(a), v):
@@ -896,9 +912,15 @@ class Session:
                     self.viol("C12.index-weight", {"C12", "C11", "C07"}, i, rep, "index regenerate weight %s vs score change %.6f" % (w, dlp))
             n = core.get("n", 1)
             self.probe("index:first" if idx == 0 else ("index:last" if idx == n - 1 else "index:middle"))
-        elif op == "static_edit":
-            addressed = {tuple(e["addr"]): e for e in st["subs"]}
+        if op == "static_edit" or (op == "index_edit" and st["sub"] == "static"):
+            lead = () if op == "static_edit" else (st["idx"],)
+            addressed = {lead + tuple(e["addr"]): e for e in st["subs"]}
+            rejuv = any(e["kind"] == "rejuv" for e in st["subs"])
+            if rejuv:
+                self.probe("static:rejuvenate")
             for a in sorted(old_vis & new_vis, key=str):
+                if a[: len(lead)] != lead:
+                    continue
                 hit = None
                 for pre, e in addressed.items():
                     if a[: len(pre)] == pre:
@@ -917,7 +939,8 @@ class Session:
                     if not sel_member(hit[1]["sel"], rel) and not same_bits(rec.x[a], src.x[a]):
                         self.viol("C38.static-regen-leak", {"C38", "C07"}, i, rep, "StaticRequest Regenerate changed unselected %s" % (a,))
             fresh = new_vis - old_vis
-            if not fresh and (wok and not obs.close(w, dlp)):
+            # (the weight of a Rejuvenate holds proposal terms: no identity claimed)
+            if not fresh and not rejuv and (wok and not obs.close(w, dlp)):
                 self.viol("C38.static-weight", {"C38"}, i, rep, "StaticRequest weight %s vs score change %.6f" % (w, dlp))
 
     def check_nochange(self, rep, i, src, rec, rd):
@@ -958,6 +981,9 @@ class Session:
         if tgt is None or tgt.edit is None:
             return {"op": "undo", "outcome": "skipped:no-edit"}
         e = tgt.edit
+        if e.get("no_inverse"):
+            # the backward request of a Rejuvenate is another Rejuvenate, not an inverse
+            return {"op": "undo", "outcome": "skipped:no-inverse"}
         src = e["src"]
         bwd = e["bwd"]
         tr = self.boundary(rep, perts, tgt, i)
